@@ -109,13 +109,14 @@ struct Reporter : MemoryLeakFailure {
 };
 
 // ------------------------------------------------------------------ thread scripts
-enum Op : char { N = 'N', D = 'D', A = 'A', a = 'a', M = 'M', R = 'R', F = 'F', X = 'X' };
+enum Op : char { N = 'N', D = 'D', A = 'A', a = 'a', M = 'M', R = 'R', r = 'r', F = 'F', X = 'X' };
+// r = realloc(NULL, n): the "grow a buffer that starts as NULL" idiom; the block belongs to the malloc family
 // X = misuse: free() of an address that was never allocated. The REAL global reporter fails the "current test" and
 // leaves the wrapper through PlatformSpecificLongJmp (a per-thread seam here); the rest of that thread's script is skipped.
-const char* SCRIPTS[] = { "ND", "Aa", "MF", "MRF", "N", "NNDD", "AMaF", "MR", "NDND", "X", "MXF", "NXD" };
-constexpr int NSCRIPTS_Q = 7, NSCRIPTS_T = 9;
-const char* XSCRIPTS[] = { "ND", "MF", "X", "MXF", "NXD", "MR" };
-constexpr int NXSCRIPTS = 6;
+const char* SCRIPTS[] = { "ND", "Aa", "MF", "MRF", "rRF", "N", "NNDD", "AMaF", "MR", "NDND", "r" };
+constexpr int NSCRIPTS_T = 11;
+const char* XSCRIPTS[] = { "ND", "MF", "X", "MXF", "NXD", "MR", "rF" };
+constexpr int NXSCRIPTS = 7;
 const char* const* g_script_table = SCRIPTS;
 
 struct Held { char* p; size_t size; char fam; unsigned char pat; };
@@ -144,12 +145,13 @@ void run_script_body(int tid) {
     for (const char* s = t.script; *s; s++) {
         unsigned char pat = (unsigned char)(0x10 * (tid + 1) + (s - t.script));
         switch (*s) {
-        case N: case A: case M: {
-            size_t size = *s == N ? 8 : *s == A ? 5 : 12;
-            char* p = *s == N ? (char*)operator new(size) : *s == A ? (char*)operator new[](size) : (char*)cpputest_malloc_location(size, "script.c", 10 + tid);
+        case N: case A: case M: case r: {
+            size_t size = *s == N ? 8 : *s == A ? 5 : *s == M ? 12 : 10;
+            char* p = *s == N ? (char*)operator new(size) : *s == A ? (char*)operator new[](size) : *s == M ? (char*)cpputest_malloc_location(size, "script.c", 10 + tid)
+                                                                                                            : (char*)cpputest_realloc_location(nullptr, size, "script.c", 50 + tid);
             t.allocs++;
             if (!p) { t.null_allocs++; break; }
-            Held h{p, size, *s, pat}; fill(h); t.held[t.nheld++] = h;
+            Held h{p, size, *s == r ? (char)M : *s, pat}; fill(h); t.held[t.nheld++] = h;
             break; }
         case D: case a: case F: {
             char fam = *s == D ? N : *s == a ? A : M;
@@ -349,13 +351,13 @@ int main(int argc, char** argv) {
     bool T = vf::thorough();
     vf::info("rule", "every schedule (choice of the next enabled thread at each modelled-mutex operation and at each unprotected detector access) of real threads running allocation scripts through the thread-safe wrappers, up to the preemption bound; all blocks forced into one hash bucket; non-trivial = schedule with >= 1 preemption");
     struct Cfg { const char* name; int threads, scripts, bound; bool inside; bool misuse; };
-    const Cfg quick[] = { {"sched2", 2, NSCRIPTS_T, 3, false, false}, {"sched3", 3, 4, 2, false, false}, {"sched2in", 2, 5, 2, true, false}, {"sched2x", 2, NXSCRIPTS, 2, true, true} };
+    const Cfg quick[] = { {"sched2", 2, NSCRIPTS_T, 3, false, false}, {"sched3", 3, 5, 2, false, false}, {"sched2in", 2, 5, 2, true, false}, {"sched2x", 2, NXSCRIPTS, 2, true, true} };
     const Cfg thor[]  = { {"sched2", 2, NSCRIPTS_T, 5, false, false}, {"sched3", 3, 6, 3, false, false}, {"sched4", 4, 3, 2, false, false}, {"sched2in", 2, NSCRIPTS_T, 3, true, false}, {"sched3in", 3, 3, 2, true, false},
                           {"sched2x", 2, NXSCRIPTS, 3, true, true}, {"sched3x", 3, 4, 1, true, true} };
     const Cfg* cfgs = T ? thor : quick; int ncfg = T ? 7 : 4;
     for (int k = 0; k < ncfg; k++) {
         Cfg c = cfgs[k];
-        vf::info(std::string(c.name) + ".bound", vf::fmt("%d threads, all %d^%d script tuples over {ND,Aa,MF,MRF,N,NNDD,AMaF,MR,NDND}[0..%d), preemption bound %d%s%s", c.threads, c.scripts, c.threads, c.scripts, c.bound, c.inside ? ", scheduling points also at every detector observation point inside the critical section" : "", c.misuse ? "; script table {ND,MF,X,MXF,NXD,MR} where X is a misuse (free of a never allocated address) reported through the real reporter" : ""));
+        vf::info(std::string(c.name) + ".bound", vf::fmt("%d threads, all %d^%d script tuples over {ND,Aa,MF,MRF,rRF,N,NNDD,AMaF,MR,NDND,r}[0..%d) (r = realloc(NULL,n)), preemption bound %d%s%s", c.threads, c.scripts, c.threads, c.scripts, c.bound, c.inside ? ", scheduling points also at every detector observation point inside the critical section" : "", c.misuse ? "; script table {ND,MF,X,MXF,NXD,MR,rF} where X is a misuse (free of a never allocated address) reported through the real reporter" : ""));
         vf::section_dfs(c.name, c.threads, false, [&](Chooser& ch) { g_detector_mutex = nullptr; g_preempt_inside = c.inside; g_script_table = c.misuse ? XSCRIPTS : SCRIPTS; scenario(ch, c.threads, c.scripts, c.bound); g_preempt_inside = false; });
         vf::require_outcomes(c.name, 20);
     }
